@@ -7,7 +7,13 @@ from props.base import PropBase
 
 def call(g, a, b, C):
     from y0.algorithm.separation.sigma_separation import are_sigma_separated
-    gr = GG.to_y0(g)
+    def warm(partial, present):
+        ps = sorted(present, key=str)
+        for i, u in enumerate(ps):
+            for v in ps[i + 1:]:
+                are_sigma_separated(partial, u, v, conditions=[])
+                are_sigma_separated(partial, u, v, conditions=[c for c in ps if c not in (u, v)])
+    gr = GG.to_y0(g, warm=warm)
     before = GG.snapshot(gr)
     out = bool(are_sigma_separated(gr, GG.V(a), GG.V(b), conditions=[GG.V(c) for c in C]))
     return out, GG.snapshot(gr) != before
